@@ -34,6 +34,8 @@ structure EntryFb (W : World E L) (T : Tables E) (c : Ctx E) (incl excl : List E
   needsBom : needsBomCond T c s.enc = false
   text : TextOk W T c s.enc s.text
   remainder : RemainderOk W T c s.enc
+  chunks : ∃ p acc, p.bomHere = bomHereOf c s.enc ∧ (lazyOf T c s.enc = false → p.payload = s.text) ∧
+    (lazyOf T c s.enc = true → p.payload = none) ∧ probeChunks W T c s.enc p = .ok acc ∧ acc.lazyHard = false
 
 /-- **Entry facts.** On non-empty input the result is either a list of regular matches all of whose
     candidates satisfy `EntryAcc`, or a single fallback match satisfying `EntryFb`. -/
@@ -58,7 +60,7 @@ theorem fromBytes_facts {W : World E L} {T : Tables E} {sort : Sorter E L}
     have he : fb.toSub.enc = e := f.enc
     exact ⟨f.raw, by rw [he]; exact hS, by rw [he]; exact hal, f.bom, f.chaos, f.cohs, f.enabled,
       by rw [he]; exact f.hint, by rw [he]; exact f.needsBom, by rw [he]; exact f.text,
-      by rw [he]; exact f.remainder⟩
+      by rw [he]; exact f.remainder, by rw [he]; exact f.chunks⟩
 
 /-- all candidate entries of a match: the main one and the sub-matches -/
 def Match.entries (m : Match E L) : List (Sub E L) := m.toSub :: m.subs
